@@ -21,11 +21,17 @@
     * `C02_countermodel` — for every tableau reachable from the trunk by ANY legal derivation,
       such a branch makes that structure a countermodel of the argument: every premise
       designated, the conclusion not.
-  `_partial`: first-order branches (quantifier and identity rules) are not covered by the theorem
-  yet; and the canonical structure is the SPECIFICATION of what the library's model builder
-  produces — that `branch.model` evaluates like it is C08's theorem (`C08_eval_is_spec`) plus the
-  runtime comparison: on every run of the sweep the library model is asked for the value of every
-  node of every open limit-free branch, and `is_countermodel_to` must agree.
+    * `C02_saturated_branch_model_fo_partial` / `C02_countermodel_fo_partial` — the same for
+      FIRST-ORDER branches (`foB`: quantifier rules included; canonical domain = the constant names,
+      every name off the branch behaving like one on it), for logics with weights for every rule row.
+  `_partial`: branches with Identity / Existence (and the identity-substitution rule) are not
+  covered — and cannot be: the calculus is incomplete for identity (`a=b ⊢ b=a` is reported invalid
+  in CFOL); "a completed tableau's open branches are saturated" is a property of the search, checked
+  by the driver on the real final branches of every run; and the canonical structure is the
+  SPECIFICATION of what the library's model builder produces — that `branch.model` evaluates like
+  it is C08's theorem (`C08_eval_is_spec`) plus the runtime comparison: on every run of the sweep
+  the library model is asked for the value of every node of every open limit-free branch, and
+  `is_countermodel_to` must agree.
 -/
 import Ptx.Proofs.Hintikka
 import Ptx.Proofs.Measure
